@@ -501,6 +501,99 @@ def curve_table(rep, u):
     return len(rows)
 
 
+def flag_rule(rep, u, fields=("x",), flag="infinity"):
+    """R-FLAG: an affine point is (x, y, infinity).  A routine that stores a new x into the ec_point_t its parameter points to
+    replaces the point, so on every path to a success return on which it did so it also stores the flag (directly, or by
+    handing the whole point as destination to a routine that does): otherwise the object keeps the flag of the point it
+    held before, and a finite result is read as the point at infinity (or the reverse).  Forward dataflow over the four
+    (x written, flag written) states."""
+    # routines that store the flag of the point handed as parameter i (fixed point over direct stores)
+    sets_flag = {}
+    changed = True
+
+    def pt_params(fn):
+        out = []
+        for i, p in enumerate(fn.params):
+            t = u.type(p["t"])
+            if t["k"] != "ptr":
+                continue
+            to = u.type(t["to"])
+            rec = next((r for r in u.records.values() if ("struct " + r["n"]) == (to.get("c") or "").replace("const ", "").strip()), None)
+            if rec is not None and any(f["n"] == flag for f in rec["fields"]) and any(f["n"] == fields[0] for f in rec["fields"]):
+                out.append((i, p["n"]))
+        return out
+
+    def field_of(e, pn):
+        e = core.strip_casts(e)
+        if e is not None and e.get("k") == "un" and e.get("op") == "&":
+            e = core.strip_casts(e["e"])
+        if e is not None and e.get("k") == "mem" and core.strip_casts(e["b"]).get("k") == "ref" and core.strip_casts(e["b"]).get("n") == pn:
+            return e["f"]
+        return None
+
+    def effects(fn, pn, elem):
+        wx = wi = False
+        for x, _ in walk(elem):
+            if x.get("k") == "bin" and x["op"] == "=":
+                f = field_of(x["x"], pn)
+                wi |= f == flag
+            if x.get("k") == "call" and x.get("args"):
+                f = field_of(x["args"][0], pn)
+                if f in fields and (x.get("fn") or "").startswith("bn_") and not x["fn"].startswith(("bn_cmp", "bn_is_", "bn_calc", "bn_export", "bn_get")):
+                    wx = True
+                for i, a in enumerate(x["args"]):
+                    a0 = core.strip_casts(a)
+                    if a0.get("k") == "ref" and a0.get("n") == pn and i in sets_flag.get(x.get("fn"), ()):
+                        wi = True
+                        wx = False if not wx else wx
+        return wx, wi
+    fns = [f for f in u.function_list if f.relfile() == EC_H and f.has_cfg and not f.name.endswith("self_test")]
+    while changed:
+        changed = False
+        for fn in fns:
+            for i, pn in pt_params(fn):
+                if i in sets_flag.get(fn.name, set()):
+                    continue
+                # must-write on every success path (simple: some store dominates every success return)
+                succ = r_mpt.success_returns(fn)
+                sites = [pos for pos, root, x, ps in fn.nodes() if effects(fn, pn, x)[1] and x.get("k") in ("bin", "call")]
+                if succ and sites and all(any(fn.pos_dominates(sp, r) for sp in sites) for r in succ):
+                    sets_flag.setdefault(fn.name, set()).add(i)
+                    changed = True
+    n = 0
+    for fn in fns:
+        for i, pn in pt_params(fn):
+            if not any(effects(fn, pn, x)[0] for _p, _r, x, _ps in fn.nodes() if x.get("k") == "call"):
+                continue
+            n += 1
+            rep.functions.add(fn.name)
+            # forward dataflow: set of (wx, wi) pairs possible at block entry
+            IN = {fn.entry: {(False, False)}}
+            work = [fn.entry]
+            bad = None
+            while work:
+                b = work.pop()
+                st = set(IN[b])
+                for e in fn.blocks[b].elems:
+                    wx, wi = effects(fn, pn, e)
+                    if wx or wi:
+                        st = {(a or wx, c or wi) for a, c in st}
+                    if e.get("k") == "ret" and const_val(e.get("e")) == 0 and core.strip_imp(e.get("e")).get("k") != "ref":
+                        if (True, False) in st:
+                            bad = bad or e.get("ln")
+                for s_ in fn.blocks[b].rsucc():
+                    if not st <= IN.get(s_, set()):
+                        IN[s_] = IN.get(s_, set()) | st
+                        work.append(s_)
+            desc = "%s: every success path that stores a new %s->x also stores %s->%s" % (fn.name, pn, pn, flag)
+            if bad:
+                rep.violated("R-FLAG", fn, "flag:%s" % pn, desc, "the success return at line %s is reached with x replaced and the flag untouched: "
+                             "the object keeps the flag of the point it held before" % bad, bad)
+            else:
+                rep.proved("R-FLAG", fn, "flag:%s" % pn, desc, "forward dataflow over (x written, flag written)")
+    return n
+
+
 def run(rep, tier):
     # (a) configuration witnesses
     cfgs = all_configs() if tier == "thorough" else analysed_configs("quick")
@@ -546,8 +639,10 @@ def run(rep, tier):
         g = exceptional_guards(rep, u)
         jacobian_raw_compare(rep, u)
         nk = r_kill.check(rep, u, [f for f in u.function_list if f.relfile() == EC_H and not f.name.endswith("self_test")])
+        nfl = flag_rule(rep, u)
         if first:
             n_kill = nk
+            n_flag = nfl
         if first:
             n_g = g
         first = False
@@ -556,6 +651,7 @@ def run(rep, tier):
     rep.floor("table-element destinations", n_arr, 20)
     rep.floor("exceptional-case guards", n_g, 8)
     rep.floor("field stores into local points", n_kill, 1)
+    rep.floor("point outputs with coordinate stores", n_flag, 3)
     del CURVES[:]
     curve_table(rep, us[aspecs[0].label])
     ncap = 0
